@@ -421,7 +421,10 @@ func runMachine(t *rapid.T, prop string, rec *stats.Rec) {
 							m.fail(t, &Finding{"C01/served-beacon-does-not-verify", fmt.Sprintf("node %d streamed round %d sig %s prev %s that does not verify: %v", from, b.GetRound(), short(b.GetSignature()), short(b.GetPreviousSignature()), err), nil})
 						}
 					}
-					if start >= 1 && b.GetRound() != want {
+					// a memdb ring no longer holds rounds below its window: a stream asked to start there begins at the lowest round
+					// still stored (the statement's "round r" clause is about single-round requests; C11 covers stream order)
+					ringStart := got == 1 && cfg.Backend == BackMem && b.GetRound() > want
+					if start >= 1 && b.GetRound() != want && !ringStart {
 						m.fail(t, &Finding{"C01/stream-wrong-round", fmt.Sprintf("node %d sync stream from %d delivered round %d where %d was due", from, start, b.GetRound(), want), nil})
 					}
 					want = b.GetRound() + 1
